@@ -415,7 +415,7 @@ func TestVerifC01(t *testing.T) {
 					c01do(c, op, "t", []byte(key), []byte(key))
 				}()
 			}
-			call("get", "a")
+			call(c01ops[(round*3+5)%len(c01ops)], "a") // (checkandput, get, increment: the call that learns of the split and is retried)
 			for i := 0; i < 500 && !held.Load(); i++ {
 				time.Sleep(10 * time.Millisecond)
 			}
@@ -424,7 +424,7 @@ func TestVerifC01(t *testing.T) {
 				rep.bad("harness:c01-split", "%s: the lookup after the split was never made", name)
 				return
 			}
-			for i, op := range []string{"get", "put", "batch", "increment"} {
+			for i, op := range c01ops { // every single-row entry point waits behind the parent
 				call(op, string(rune('b'+i)))
 			}
 			time.Sleep(100 * time.Millisecond) // they wait for the parent to be re-established
